@@ -83,7 +83,7 @@ impl Rig {
             let (name, p) = (name.clone(), p.clone());
             let mut o = panic_outcome(&name, &p);
             if let Outcome::Fail(f) = &mut o {
-                f.signature = self.qualify(&f.signature);
+                f.signature = self.qualify(&f.signature, &p.0);
                 f.detail = self.detail(&f.detail);
             }
             return Err(o);
@@ -99,11 +99,18 @@ impl Rig {
 
     /// Narrows the signature of failures that are the known consequence of a trigger the case
     /// actually contained, so that a known finding never masks the same site reached another way.
-    fn qualify(&self, sig: &str) -> String {
+    fn qualify(&self, sig: &str, msg: &str) -> String {
         let w = &self.world;
-        let refused_sites = ["client.rs:593", "client.rs:598", "client.rs:1451", "client.rs:1465"];
-        if sig.starts_with("panic:client-run:aldrin/src/client.rs:") && refused_sites.iter().any(|s| sig.ends_with(s)) && w.stat("claim-refused") > 0 {
-            return format!("{}:after-refused-claim", sig);
+        // the debug assertions on the client's sender/receiver maps (line numbers move with the
+        // repository, the assertion texts do not)
+        let map_assert = msg.contains("contained.is_some()") || msg.contains("self.senders.contains_key") || msg.contains("self.receivers.contains_key");
+        if sig.starts_with("panic:client-run:aldrin/src/client.rs:") && map_assert {
+            if w.stat("claim-cancelled") > 0 {
+                return format!("{}:after-cancelled-claim", sig);
+            }
+            if w.stat("claim-refused") > 0 {
+                return format!("{}:after-refused-claim", sig);
+            }
         }
         if sig.starts_with("panic:app-task:aldrin/src/bus_listener.rs:") && w.stat("listener-polled-after-destroy") > 0 {
             return format!("{}:after-destroy", sig);
@@ -146,7 +153,16 @@ impl Rig {
                 Some(Err(e)) => {
                     // the connection gave up because the broker had already left its run loop
                     let broker_gone = matches!(&*c.conn_result.borrow(), Some(Err(ConnErr::UnexpectedShutdown)));
-                    let q = if broker_gone { ":connection-lost-broker" } else { "" };
+                    // labels: did the application ask for this client's shutdown itself (then the
+                    // client's Shutdown message raced with the broker's exit), was the broker shut
+                    // down as a whole
+                    let own = self.world.clients[i].self_shutdown.get();
+                    let q = match (broker_gone, own, self.world.broker_shutdown_requested.get()) {
+                        (true, true, _) => ":connection-lost-broker:client-shutdown-race",
+                        (true, false, true) => ":connection-lost-broker:broker-shutdown",
+                        (true, false, false) => ":connection-lost-broker",
+                        _ => "",
+                    };
                     return Err(fail(format!("client-run:error:{}{}", variant(&format!("{:?}", e)), q), self.detail(&format!("Client::run() of c{} ended with {:?}", i, e))));
                 }
                 Some(Ok(())) => {
@@ -162,7 +178,23 @@ impl Rig {
             }
             match &*c.conn_result.borrow() {
                 Some(Err(e)) => {
-                    return Err(fail(format!("conn-run:error:{}", variant(&format!("{:?}", e))), self.detail(&format!("Connection::run() of c{} ended with {:?}", i, e))));
+                    // label: the broker was shut down as a whole during the program
+                    let own = self.world.clients[i].self_shutdown.get();
+                    // Client and broker both shut down, the client has left with Ok (it received
+                    // the connection's Shutdown), and the connection, still waiting for its own
+                    // flush on a full transport, notices the closed transport first: only the
+                    // result code of Connection::run differs, which no listed property speaks
+                    // about (C06/C15: the client's view, and the broker releasing the state).
+                    if own && self.world.broker_shutdown_requested.get() && matches!(&*c.client_result.borrow(), Some(Ok(()))) && variant(&format!("{:?}", e)) == "Transport" {
+                        self.world.count("conn-run:transport-error-after-mutual-clean-shutdown");
+                        continue;
+                    }
+                    let q = match (self.world.broker_shutdown_requested.get(), own) {
+                        (true, true) => ":client-vs-broker-shutdown",
+                        (true, false) => ":broker-shutdown",
+                        _ => "",
+                    };
+                    return Err(fail(format!("conn-run:error:{}{}", variant(&format!("{:?}", e)), q), self.detail(&format!("Connection::run() of c{} ended with {:?}", i, e))));
                 }
                 Some(Ok(())) => {
                     if !stopped {
